@@ -649,9 +649,82 @@ func handlerPart(sc *Scenario, thorough bool) (out *hOut) {
 			}
 		}
 	}
+	// aliased spellings: the same document with ActivityStreams imported under an alias (members
+	// written "as:<name>", types "as:<Type>"), alone and with a stray UN-aliased member next to the
+	// aliased one (and the reverse) - code that reads the raw JSON and code that reads the decoded
+	// value may then disagree about which member is meant
+	for _, tg := range targets {
+		tg := tg
+		top, ok := tg.doc.(map[string]interface{})
+		if !ok {
+			continue
+		}
+		apply := func(opName string, m interface{}) {
+			if tg.put == nil {
+				run(tg.name, "/", opName, nil, ap.MustJSON(m))
+			} else {
+				run(tg.name, "/", opName, func(a *ap.App) { tg.put(a, m) }, nil)
+			}
+		}
+		al := aliasDoc(top, true).(map[string]interface{})
+		apply("aliased-context", al)
+		strays := []interface{}{L{}, L{M{}}, "https://r9.example/stray", nil, L{M{"type": "Note"}, M{"type": "Note"}, M{"type": "Note"}}}
+		for _, member := range []string{"object", "target", "actor", "to", "tag", "inReplyTo", "orderedItems", "items", "id", "type"} {
+			if _, has := top[member]; !has {
+				continue
+			}
+			for si, st := range strays {
+				m1 := deepCopy(al).(map[string]interface{})
+				m1[member] = st
+				apply(fmt.Sprintf("aliased+stray-plain-%s-%d", member, si), m1)
+				if member != "id" && member != "type" {
+					m2 := deepCopy(top).(map[string]interface{})
+					m2["as:"+member] = st
+					apply(fmt.Sprintf("plain+stray-aliased-%s-%d", member, si), m2)
+				}
+			}
+		}
+	}
 	out.Classes = len(classes)
 	out.Sample = M{"scenario": sc.Name, "targets": len(targets), "stored_read": store, "remote_read": remote}
 	return out
+}
+
+// aliasDoc rewrites a document so that ActivityStreams is imported under the alias "as": member
+// names become "as:<name>" (JSON-LD keywords id / type / @context keep their names), type names
+// "as:<Type>"; nested objects are rewritten too.
+func aliasDoc(v interface{}, top bool) interface{} {
+	switch x := v.(type) {
+	case map[string]interface{}:
+		o := map[string]interface{}{}
+		for k, e := range x {
+			switch k {
+			case "@context":
+				continue
+			case "id":
+				o[k] = e
+			case "type":
+				if s, ok := e.(string); ok {
+					o[k] = "as:" + s
+				} else {
+					o[k] = e
+				}
+			default:
+				o["as:"+k] = aliasDoc(e, false)
+			}
+		}
+		if top {
+			o["@context"] = M{"https://www.w3.org/ns/activitystreams": "as"}
+		}
+		return o
+	case []interface{}:
+		l := make([]interface{}, len(x))
+		for i, e := range x {
+			l[i] = aliasDoc(e, false)
+		}
+		return l
+	}
+	return v
 }
 
 func remoteClass(id string) string {
@@ -826,7 +899,7 @@ func C11(tier string) int {
 		bound = 2
 	}
 	res.Extra["mutation_bound_completed"] = bound
-	res.Rule = fmt.Sprintf("(1) decoder: every type x every member name (all properties, their Map forms, type, id, @context) x %d junk JSON values x {scalar, list} through decode->encode->decode->encode, plus every example embedded in the vocabulary files with each node mutated by %d operators; (2) handlers: for each of %d scenarios (all entry points), every JSON node of the request body, of every stored / remote document the fault-free run reads and (GetInbox / GetOutbox) of the page the application supplies is, one at a time (thorough: two at a time), removed, nulled, emptied or replaced by a value of another kind (number, bool, array, object without id, unknown type, IRI to a missing / ill-typed / incomplete / unknown-type / garbled / cyclic document), plus whole-document replacements and recursion limits 1,2,4; (3) every POST / Send scenario with exactly one application hook configured (each of 12 hooks, wrapped or as 'other' override); (4) the delivering entry points (client POST, Send, auto-accepted Follow, inbox forwarding) with the library's own HttpSigTransport over a fake HTTP client: a remote collection of 1..17 (thorough: 65) actors of which 0, 1, 2 or all answer the delivery with 500 / 404 / a client error / a mixture; oracle: no panic, returns within the seam-call horizon (a request still running after 60 s is reported by the process-wide watchdog); distinct = (target document, path, operator)", len(junk)+1, len(mutOps), len(scs))
+	res.Rule = fmt.Sprintf("(1) decoder: every type x every member name (all properties, their Map forms, type, id, @context) x %d junk JSON values x {scalar, list} through decode->encode->decode->encode, plus every example embedded in the vocabulary files with each node mutated by %d operators; (2) handlers: for each of %d scenarios (all entry points), every JSON node of the request body, of every stored / remote document the fault-free run reads and (GetInbox / GetOutbox) of the page the application supplies is, one at a time (thorough: two at a time), removed, nulled, emptied or replaced by a value of another kind (number, bool, array, object without id, unknown type, IRI to a missing / ill-typed / incomplete / unknown-type / garbled / cyclic document), plus whole-document replacements, every such document re-spelled with ActivityStreams imported under an alias (alone and with a stray un-aliased / aliased twin of each reference member holding [], [{}], an IRI, null or three objects) and recursion limits 1,2,4; (3) every POST / Send scenario with exactly one application hook configured (each of 12 hooks, wrapped or as 'other' override); (4) the delivering entry points (client POST, Send, auto-accepted Follow, inbox forwarding) with the library's own HttpSigTransport over a fake HTTP client: a remote collection of 1..17 (thorough: 65) actors of which 0, 1, 2 or all answer the delivery with 500 / 404 / a client error / a mixture; oracle: no panic, returns within the seam-call horizon (a request still running after 60 s is reported by the process-wide watchdog); distinct = (target document, path, operator)", len(junk)+1, len(mutOps), len(scs))
 	res.Assumptions = []string{"arbitrary byte strings are replaced by a bounded junk alphabet and grammar-based mutations; coverage-guided fuzzing (sampling) is deliberately not used",
 		"a hang that makes no seam call is caught only by the worker timeout"}
 	return res.Finish()
